@@ -16,7 +16,8 @@ ID = 'C18'
 TITLE = 'Python objects are converted faithfully and cycles never hang'
 LEVEL = 'exploration'
 TECHNIQUE = ('Hypothesis-generated object graphs (trees, DAGs with shared sub-objects, back-patched cycles, custom '
-             'objects) x build options, against a reference conversion; differential across the three builder entry points')
+             'objects with inherited members, sets of look-alike objects, bytes, frozensets) x build options, against a reference '
+             'conversion; differential across the three builder entry points and against opposite-order twins')
 RULE = ("A case is an object graph given as a node table: each node is a scalar, list, tuple, dict (str/int keys), "
         "set/frozenset (of hashable scalars or scalar tuples, or of custom objects some of which carry equal data) or a custom object with attributes (plain, or of a class that inherits class-level constants and a property over two levels); lists, dicts and "
         "objects may reference any node (so shared sub-objects and self-/mutual cycles at any depth arise by "
